@@ -384,6 +384,15 @@ func (t *trans) expr(e ast.Expr) string {
 		}
 		return t.varName(x.Name)
 	case *ast.SelectorExpr:
+		// r.URL.Scheme of an *http.Request: a function of the request
+		if x.Sel.Name == "Scheme" {
+			if inner, ok := x.X.(*ast.SelectorExpr); ok && inner.Sel.Name == "URL" {
+				if tv, ok := t.info.Types[inner.X]; ok && tv.Type != nil && strings.HasSuffix(tv.Type.String(), "http.Request") {
+					t.addExtern("requestScheme", "HTTPRequest → String")
+					return "(env.requestScheme " + t.derefd(inner.X) + ")"
+				}
+			}
+		}
 		// package-qualified name
 		if id, ok := x.X.(*ast.Ident); ok {
 			if _, isPkg := t.info.Uses[id].(*types.PkgName); isPkg {
@@ -637,7 +646,7 @@ func (t *trans) effectCall(c *ast.CallExpr) (handled bool, value string) {
 	}
 	var evArgs []string
 	for i, a := range c.Args {
-		if name == "http.Error" {
+		if name == "http.Error" || name == "http.SetCookie" {
 			break
 		}
 		if id, ok := a.(*ast.Ident); ok && t.cur.writers[id.Name] {
@@ -659,6 +668,37 @@ func (t *trans) effectCall(c *ast.CallExpr) (handled bool, value string) {
 		case "error":
 			evArgs = append(evArgs, "(errStr "+t.expr(a)+")")
 		}
+	}
+	if name == "http.SetCookie" && len(c.Args) == 2 {
+		// the cookie that is set: its string and boolean fields as "Field=value" (other fields are not recorded)
+		evArgs = nil
+		lit, _ := c.Args[1].(*ast.CompositeLit)
+		if u, ok := c.Args[1].(*ast.UnaryExpr); ok && u.Op == token.AND {
+			lit, _ = u.X.(*ast.CompositeLit)
+		}
+		if lit == nil {
+			t.failf("%s: http.SetCookie of something else than a cookie literal", t.cur.name)
+		} else {
+			for _, el := range lit.Elts {
+				kv, ok := el.(*ast.KeyValueExpr)
+				if !ok {
+					continue
+				}
+				k := t.src(kv.Key)
+				ty := ""
+				if tv, ok := t.info.Types[kv.Value]; ok && tv.Type != nil {
+					ty = tv.Type.Underlying().String()
+				}
+				switch ty {
+				case "string":
+					evArgs = append(evArgs, "("+leanStr(k+"=")+" ++ "+t.expr(kv.Value)+")")
+				case "bool":
+					evArgs = append(evArgs, "("+leanStr(k+"=")+" ++ toString "+t.expr(kv.Value)+")")
+				}
+			}
+		}
+		t.pre = append(t.pre, "trace' := trace' ++ [⟨"+leanStr(name)+", ["+strings.Join(evArgs, ", ")+"]⟩]")
+		return true, "()"
 	}
 	if name == "http.Error" && len(c.Args) == 3 {
 		// (the status as written in the source: StatusBadRequest, StatusInternalServerError, …)
@@ -758,6 +798,9 @@ func (t *trans) call(c *ast.CallExpr) string {
 			if len(c.Args) == 2 {
 				return t.expr(c.Args[1])
 			}
+		case "net.SplitHostPort":
+			t.addExtern("splitHostPort", "String → Outcome (String × String × GoError)")
+			return "(← env.splitHostPort " + t.expr(c.Args[0]) + ")"
 		case "bcrypt.GenerateFromPassword":
 			if len(c.Args) == 2 {
 				pw := c.Args[0]
@@ -1166,11 +1209,14 @@ func (t *trans) retExpr(results []ast.Expr) string {
 	}
 	if t.cur.trace {
 		// a handler that also returns a value: (value, trace)
+		v := "default"
 		if len(results) == 1 {
-			v := t.expr(results[0])
-			return "(" + v + ", trace')"
+			v = t.expr(results[0])
 		}
-		return "(default, trace')"
+		if t.cur.mutRecv {
+			return "(" + t.cur.recv + ", (" + v + ", trace'))"
+		}
+		return "(" + v + ", trace')"
 	}
 	var v string
 	switch len(results) {
@@ -2220,6 +2266,7 @@ func translate(repo string, p *pkgFiles, outPath string) {
 		{fn: "GetTrackedRequests", recv: "CookieRequestTracker"},
 		{fn: "GetTrackedRequest", recv: "CookieRequestTracker"},
 		{fn: "GetSession", recv: "CookieSessionProvider", as: "cookieGetSession"},
+		{fn: "CreateSession", recv: "CookieSessionProvider", as: "cookieCreateSession", trace: true, mutRecv: true},
 		{fn: "Decode", recv: "JWTTrackedRequestCodec", as: "trackedRequestClaimsCheck", anchor: "if err != nil {"},
 		{fn: "Decode", recv: "JWTSessionCodec", as: "sessionClaimsCheck", anchor: "if err != nil {"},
 		{fn: "HandleStartAuthFlow", recv: "Middleware", as: "startFlowBinding", anchor: "var binding, bindingLocation string", until: "authReq, err :=", yield: "binding", yieldTy: "String"},
@@ -2252,10 +2299,11 @@ func translate(repo string, p *pkgFiles, outPath string) {
 // (the standard library's export data is not read: the translator runs on syntax plus these signatures)
 func stubHTTP() *types.Package {
 	const src = `package http
-type Cookie struct { Name, Value string }
+type Cookie struct { Name, Value, Path, Domain string; MaxAge int; Secure, HttpOnly bool; SameSite int }
 type Values map[string][]string
 func (v Values) Get(k string) string
-type Request struct { Form Values; PostForm Values; Method string; Body interface{} }
+type URL struct { Scheme, Path, Host string }
+type Request struct { Form Values; PostForm Values; Method string; Body interface{}; URL *URL }
 func (r *Request) PathValue(name string) string
 func (r *Request) Cookies() []*Cookie
 func (r *Request) Cookie(name string) (*Cookie, error)
@@ -2269,6 +2317,7 @@ const StatusNoContent = 204
 const StatusNotFound = 404
 func Redirect(w ResponseWriter, r *Request, url string, code int)
 func Error(w ResponseWriter, error string, code int)
+func SetCookie(w ResponseWriter, cookie *Cookie)
 func StatusText(code int) string
 `
 	fset := token.NewFileSet()
